@@ -97,9 +97,12 @@ def campaign(c):
         for _ in range(1 + r.below(6)): L.append(r.choice(names) + ';')
         if r.chance(1, 2): L.append('f.client_close();')
         for _ in range(r.below(3)): L.append(r.choice(names) + ';')
-        one(c, ('\n'.join(L) + '\n').encode(), 'stored')
+        one(c, (('\n' if i % 2 else ' ').join(L) + '\n').encode(), 'stored')
     n = 150 if c.quick else 2500
+    from ..gen import join_lines
     for i, src, g in progdiff.generated_programs(c, n):
+        if i % 3 == 1:      # several statements per source line: records still in statement order
+            src = join_lines(src, c.rng.fork('join%d' % i)); c.count('several-statements-per-line')
         one(c, src, 'gen')
         for k, v in g.stats.items():
             if k.startswith('call:'): c.count(k, v)
